@@ -6,6 +6,7 @@ Tie: translator (skeletons), simulate correspondence incl. rejected mutations, a
 property oracle through the real `evolve --execute --noinput` command on a real database.
 """
 import copy
+import json
 
 from .. import dbrig, evorig, sigs, simcorr
 
@@ -208,6 +209,10 @@ def run_case(rep, prepared=True):
         reaches = (Diff(sim[1], target).is_empty(ignore_apps=True) and
                    Diff(target, sim[1]).is_empty(ignore_apps=True))
     rep['reaches_target'] = reaches
+    if sim is not None and sim[0] == 'ok':
+        only = lambda js: dict(js, apps=[a for a in js['apps'] if a['id'] == 'vapp'])
+        rep['sim_abs'] = only(sigs.abs_sig(sim[1]))
+        rep['target_abs'] = only(sigs.abs_sig(target))
     if gate_passed:
         if not reaches:
             # the mechanism of finding F28: get_app_pending_mutations drops every mutation whose
@@ -279,6 +284,18 @@ def _two():
                                                 _m('Beta', [_f('c', 'IntegerField'), _f('d', 'IntegerField')])]}]}
 
 
+def _rel():
+    return {'apps': [{'id': 'vapp', 'models': [
+        _m('Alpha', [_f('a', 'IntegerField'), _f('b', 'IntegerField')]),
+        _m('Beta', [_f('c', 'IntegerField'),
+                    {'name': 'ref', 'type': 'ForeignKey', 'attrs': {'null': True}, 'related': 'vapp.Alpha'},
+                    {'name': 'twin', 'type': 'OneToOneField', 'attrs': {'null': True}, 'related': 'vapp.Alpha'}])]}]}
+
+
+_FKIDX = {'t': 'ChangeField', 'model': 'Beta', 'field': 'ref', 'ftype': None, 'initial': None,
+          'attrs': [['db_index', 'false']]}
+
+
 def _text():
     return {'apps': [{'id': 'vapp', 'models': [_m('Alpha', [_f('notes', 'CharField', max_length=50, null=True)])]}]}
 
@@ -325,6 +342,12 @@ FAMILY = [
                     'attrs': []},
                    {'t': 'ChangeField', 'model': 'Alpha', 'field': 'notes', 'ftype': None, 'initial': None,
                     'attrs': [['null', 'false']]}]},
+    # an index switched off on a relation field (whose own default is db_index=True) next to an effective mutation:
+    # dropping that ChangeField leaves a residual difference that only the field type's own default reveals
+    {'spec0': _rel(), 'valid': [_ADD, _FKIDX], 'perturbation': 'family:drop ChangeField(db_index=False) of a ForeignKey',
+     'evolution': [_ADD]},
+    {'spec0': _rel(), 'valid': [_ADD, dict(_FKIDX, field='twin')],
+     'perturbation': 'family:drop ChangeField(db_index=False) of a OneToOneField', 'evolution': [_ADD]},
     # a mutation the backend cannot apply at all (table comments on SQLite) next to a mutation that leaves a
     # residual difference: the run must be refused, whatever the reason given
     {'spec0': _two(), 'valid': [_ADD], 'perturbation': 'family:unsupported Meta property next to a misnamed AddField',
@@ -356,6 +379,18 @@ def judge(ctx, rep):
         if err:
             rep['problems'].append('the upgrade was executed although the evolution is invalid one mutation at a '
                                    'time (%s)' % err)
+        # ... and the model of the difference (C05's diff model, with the default tables read from the source)
+        # must see no residue either: the real Diff is the thing under test here, not the judge
+        if rep.get('reaches_target') and ctx.driver and 'sim_abs' in rep:
+            from .c05 import empty
+            outs = ctx.driver.ask([{'op': 'diff', 'old': rep['sim_abs'], 'new': rep['target_abs']},
+                                   {'op': 'diff', 'old': rep['target_abs'], 'new': rep['sim_abs']}])
+            for o in outs:
+                d = (o or {}).get('diff')
+                if d is not None and not empty(d):
+                    rep['problems'].append('the upgrade was executed although the simulated signature differs from '
+                                           'the models (difference seen by the diff model: %s)' % json.dumps(d)[:200])
+                    break
     for p in rep['problems']:
         ctx.fail(None, p, short)
     if rep.get('dropped_by_changed_models_filter'):
